@@ -107,6 +107,7 @@ def run_spawned_raise_case(case, ctx, mon):
         sketches = {name: loaders[name](f) for name, f in zip(combo, r["files"])}
         P.check_result(mon, sketches, combo, case["args"], case["items"], det)
         mon.count("spawned_raising_runs_completed")
+        mon.count("spawned_raising_items", sum(1 for it in case["items"] if str(it.get("mark", "")).startswith("raise")))
         mon.nontrivial(True)
     finally:
         P.cleanup_spawned(out)
@@ -139,6 +140,15 @@ def gen_cases(ctx):
         items = P.gen_items(rng, 400, keys, marks={0: "raise_custom", 7: "raise_custom"})
         yield {"type": "spawned_raise", "items": items, "n_workers": 2, "combo": list(COMBO_ALL), "args": P.gen_args(rng, COMBO_ALL, "linear"),
                "timeout": 600, "item_kind": "dict"}
+    if q or sh == ns - 3:
+        # thousands of raising items in one real run: whatever a worker accumulates per failure (log records, a result queue
+        # entry, a traceback) grows past every pipe and queue buffer; parallel_add must still come back with the rest
+        keys = key_family(rng, 8, 0, 8)
+        n = 3000 if q else 12000
+        good = set(int(x) for x in rng.choice(n, 40, replace=False))
+        items = P.gen_items(rng, n, keys, marks={i: pick(rng, ["raise_before", "raise_after", "raise_custom"]) for i in range(n) if i not in good})
+        yield {"type": "spawned_raise", "items": items, "n_workers": 2, "combo": list(COMBO_ALL), "args": P.gen_args(rng, COMBO_ALL, "linear"),
+               "timeout": 900, "item_kind": "dict", "many_raising": n - 40}
     # --- exhaustive: mark vectors x schedules
     n_items, n_workers = (3, 2) if q else (4, 3)
     base = ctx.rng("exh")
@@ -211,4 +221,5 @@ def floors(mon, ctx):
     mon.floor("in-process runs with marked items", mon.counters["inproc_runs_with_marked_items"], 200)
     mon.floor("in-process simulated deaths", mon.counters["inproc_death_runs"], 20)
     mon.floor("real death runs completed", mon.counters["spawned_death_runs_completed"], 1)
+    mon.floor("raising items in one real spawned run", mon.counters["spawned_raising_items"], 2000)
     mon.floor("fault kinds", len(mon.classes["marks"]), 2)
